@@ -782,7 +782,7 @@ class PDFPageInterpreter:
             n = 1
 
         if n == 1:
-            gray = self.pop(1)[0]
+            gray = (self.pop(1) or [None])[0]
             gray_f = safe_float(gray)
             if gray_f is None:
                 log.warning(
@@ -793,7 +793,7 @@ class PDFPageInterpreter:
 
         elif n == 3:
             values = self.pop(3)
-            rgb = safe_rgb(*values)
+            rgb = safe_rgb(*values) if len(values) == 3 else None
             if rgb is None:
                 log.warning(
                     f"Cannot set RGB stroke color because not all values in {values!r} can be parsed as floats"
@@ -803,7 +803,7 @@ class PDFPageInterpreter:
 
         elif n == 4:
             values = self.pop(4)
-            cmyk = safe_cmyk(*values)
+            cmyk = safe_cmyk(*values) if len(values) == 4 else None
 
             if cmyk is None:
                 log.warning(
@@ -827,7 +827,7 @@ class PDFPageInterpreter:
             n = 1
 
         if n == 1:
-            gray = self.pop(1)[0]
+            gray = (self.pop(1) or [None])[0]
             gray_f = safe_float(gray)
             if gray_f is None:
                 log.warning(
@@ -838,7 +838,7 @@ class PDFPageInterpreter:
 
         elif n == 3:
             values = self.pop(3)
-            rgb = safe_rgb(*values)
+            rgb = safe_rgb(*values) if len(values) == 3 else None
 
             if rgb is None:
                 log.warning(
@@ -849,7 +849,7 @@ class PDFPageInterpreter:
 
         elif n == 4:
             values = self.pop(4)
-            cmyk = safe_cmyk(*values)
+            cmyk = safe_cmyk(*values) if len(values) == 4 else None
 
             if cmyk is None:
                 log.warning(
